@@ -220,7 +220,7 @@ func init() {
 		Plan: func(tier string) fw.Plan {
 			n := 800
 			if tier == "thorough" {
-				n = 30000
+				n = 60000
 			}
 			return fw.Plan{
 				Level:            "exploration",
